@@ -89,7 +89,13 @@ def rng(ctx, mir, o, depth=0):
         if pr == [".0"]:
             ds = defs_of(mir, l)
             if len(ds) == 1 and "r" in ds[0][1] and ds[0][1]["r"].get("rv") == "bin":
-                return rng_bin(ctx, mir, ds[0][1]["r"], depth)
+                rb = rng_bin(ctx, mir, ds[0][1]["r"], depth)
+                tr0 = INT_RANGE.get(o.get("ty"))
+                if rb is not None and tr0 is not None and "WithOverflow" in ds[0][1]["r"].get("op", ""):
+                    # the value of a checked operation is only used past its overflow assert: it lies in the type's range
+                    lo, hi = max(rb[0], tr0[0]), min(rb[1], tr0[1])
+                    return (lo, hi) if lo <= hi else tr0
+                return rb
         pty = o.get("ty")
         if pr == ["as Continue#0", ".0"]:
             # the payload of `x?`: follow x back to the Ok(..) values it can hold
@@ -491,6 +497,18 @@ def array_len(ty):
 
 def discharge_R(ctx, site):
     """returns a reason string if the site cannot fire, decided from constants/types/dominating comparisons"""
+    if site["kind"] == "alloc":
+        t = site["term"]
+        fn = t.get("fn") or ""
+        arg = t["args"][1] if fn.endswith("from_elem") and len(t["args"]) == 2 else (t["args"][-1] if t.get("args") else None)
+        elem = (t.get("gargs") or ["u8"])[0]
+        size = {"u8": 1, "i8": 1, "bool": 1, "u16": 2, "i16": 2, "u32": 4, "i32": 4, "f32": 4, "char": 4, "u64": 8, "i64": 8, "f64": 8, "usize": 8}.get(elem)
+        if arg is not None and size:
+            r = rng(ctx, site["mir"], arg)
+            if r is not None and r[0] >= 0 and r[1] * size <= 2**63 - 1:
+                return "requested length in [%d, %d] x %d bytes: cannot exceed isize::MAX (allocation failure itself is outside the inventory)" % (r[0], r[1], size)
+        return None
+
     mir, t = site["mir"], site["term"]
     k = site["kind"]
     if k.startswith("overflow:"):
